@@ -617,3 +617,41 @@ Proof.
   eapply shares_follow_trigger with (latest := st_latest s); try eassumption.
   rewrite new_block_split. simpl. exact Htr.
 Qed.
+
+(* ------------------------------------------------------------------------------------- *)
+(* never early in the contract's (unsigned) reading of the release time *)
+
+Lemma latest_in_range_run c ops : latest_in_range (st_latest (run c ops)).
+Proof.
+  induction ops as [|o ops IH] using rev_ind; [intros l [=]|].
+  rewrite run_snoc.
+  assert (Hkeep : forall d, latest_in_range (st_latest (mkState d (st_latest (run c ops))))) by (intros d; exact IH).
+  destruct o; [cbn [step]|simpl ..]; try exact IH.
+  - rewrite new_block_split. simpl. unfold prepare_time_based.
+    destruct (match st_latest (run c ops) with Some l => u64 time <=? l | None => false end); simpl; [exact IH|].
+    intros l [= <-]. unfold u64. apply Z.mod_pos_bound. lia.
+  - intros l [=].
+  - unfold register_time. destruct ((eon <? 0) || (block <? 0)); simpl; exact IH.
+  - unfold register_event. destruct ((eon <? 0) || (block <? 0) || (expiration <? 0)); simpl; exact IH.
+  - destruct (insert_fired (st_db (run c ops)) eon identity block); simpl; exact IH.
+  - unfold add_config. destruct (existsb _ (cfgs (st_db (run c ops)))); simpl; exact IH.
+  - unfold eon_started. destruct (existsb _ (eons (st_db (run c ops)))); simpl; exact IH.
+  - unfold dkg_result. destruct (existsb _ (dkgs (st_db (run c ops)))); simpl; exact IH.
+  - destruct (handle_trigger c (st_db (run c ops)) block ids). simpl. exact IH.
+Qed.
+
+Theorem time_never_early_unsigned c ops number time enum tr id :
+  In tr (time_triggers c (run c ops) number time enum) -> In id (tg_ids tr) ->
+  exists r, time_registered ops r /\
+            In r (irs (st_db (run c ops))) /\ ir_identity r = id /\ ir_eon r = tg_cfg tr /\
+            ir_decrypted r = false /\
+            - 2^63 <= ir_timestamp r < 2^63 /\
+            u64 (ir_timestamp r) < u64 time /\
+            (u64 time < 2^63 -> 0 <= ir_timestamp r).
+Proof.
+  unfold time_triggers. intros Htr Hid.
+  assert (Hr : 0 <= u64 time < 2^64) by (unfold u64; apply Z.mod_pos_bound; lia).
+  destruct (prepare_time_based_unsigned _ _ _ _ _ _ _ _ (latest_in_range_run c ops) Hr Htr Hid)
+    as (r & H1 & H2 & H3 & H4 & H5 & H6 & H7).
+  exists r. split; [apply (time_registered_run c); exact H1|]. auto 10.
+Qed.
